@@ -1,4 +1,5 @@
 import FM.Lemmas.Render
+import FM.Lemmas.RenderPD
 import FM.Lemmas.BlockStart
 import FM.Lemmas.Sentence
 /-
@@ -22,6 +23,31 @@ theorem FRAME (cfg : RCfg) (st : RState) (b : Block) : Frame st (renderBlock cfg
 
 theorem FRAME_blocks (cfg : RCfg) (st : RState) (bs : List Block) : Frame st (renderBlocks cfg st bs).2 :=
   (frame_all cfg).2.1 st bs
+
+/-- PREFIX_DISCIPLINE_partial: every line the renderer writes for a document — at any nesting of
+lists, quotes, alerts and footnotes, for every tree, list-spacing mode and wrapper that keeps its
+own contract (`WrapPD`: the lines it returns start with the prefixes it was given) — is empty or
+starts with the prefix of the container it is in (first-line or continuation form, trailing
+whitespace aside).  A line that lost its `  > ` or its indentation would end the enclosing
+container when the output is read back; stating this theorem is what exposed two such lines in
+flowmark (the separator between loose items, the empty alert).  Partial: link reference
+definitions and tables are emitted as written and excluded (`plainBlocks`); bare empty lines are
+allowed by `PfxOK`. -/
+theorem PREFIX_DISCIPLINE_partial (cfg : RCfg) (hw : WrapPD cfg) (bs : List Block) (h : plainBlocks bs = true) :
+    AllLines (PfxOK [] []) (renderDoc cfg bs) :=
+  ((pd_all cfg hw).2.1 RState.init bs h (by simp [RState.init]) (by simp [RState.init])).1
+
+/-- the same inside any container: a block rendered under prefixes `(p, s)` writes only lines that
+start with `p` or `s` (or are empty), and hands back `s` as both prefixes' continuation -/
+theorem PREFIX_DISCIPLINE_block (cfg : RCfg) (hw : WrapPD cfg) (st : RState) (b : Block) (h : plainBlock b = true)
+    (hp : '\n' ∉ st.pfx) (hs : '\n' ∉ st.snd) :
+    AllLines (PfxOK st.pfx st.snd) (renderBlock cfg st b).1 :=
+  ((pd_all cfg hw).1 st b h hp hs).1
+
+/-- non-vacuity of the wrapper contract: the wrapper that writes the text on one line satisfies it -/
+example : WrapPD { wrap := fun t p _ => p ++ t.filter (· != '\n'), spacing := .preserve, defs := [] } := by
+  intro t p s hp _
+  exact .single (by simp [hp]) (PfxOK.of_pfx _ _ _)
 
 /-! ### (i) no hazard at introduced line heads -/
 
